@@ -1372,6 +1372,9 @@ static int ksi_CalendarHashChain_verifyRightLinkCompatibility(const KSI_Calendar
 				++bi;
 				break;
 			}
+			/* A left link is not a match: forget it, otherwise it would be compared below
+			 * when the second chain has no more right links. */
+			bLink = NULL;
 		}
 
 		/* If the second list did not contain any more right links, return an error. */
